@@ -220,7 +220,6 @@ func runC01(c *Ctx) {
 	// ---------- R01.11 a rejected write leaves no trace in the stored resource's metadata
 	c.Import(runC19, "R19.3", "pkg/resource.Finalizers)", "R01.11", "E3", "Finalizers.Add/Remove write only to storage created in the same call: a conflicting or rejected AddFinalizer/RemoveFinalizer/Update attempt (built on a copy of the stored resource) cannot alter what the store still holds", 2)
 
-
 	// ---------- error discipline (E8)
 	errDisciplineFor(c, "C01")
 
